@@ -155,6 +155,47 @@ theorem irrev_history_nonneg (e : Env) (s : St) (ops : List HOp) (h0 : 0 ≤ s.i
   rw [irrev_history e s ops hnp]
   exact Int.le_trans h0 (foldl_nextIrrev_mono _ _ _)
 
+/-- the undo loop of a walk — with or without the prune flag — never makes a non-negative height negative -/
+theorem undoAll_irrev_nonneg (e : Env) (prune : Bool) (l : List Nat) : ∀ st : St, 0 ≤ st.irrev →
+    0 ≤ (walk.undoAll e prune l st).1.irrev := by
+  induction l with
+  | nil => intro st h; exact h
+  | cons bi rest ih =>
+    intro st h
+    rw [undoAll_cons]
+    split
+    · exact h
+    · apply ih
+      cases prune with
+      | false => rw [undoBlock_irrev]; exact h
+      | true => rw [undoBlock_prune_irrev]; exact nextIrrevPrune_nonneg _ _ _ h
+
+/-- **floored at zero under EVERY operation, pruning walks included**: the pruning rule floors at zero as well -/
+theorem hstep_irrev_nonneg (e : Env) (s : St) (op : HOp) (h0 : 0 ≤ s.irrev) : 0 ≤ (hstep e s op).irrev := by
+  cases hp : isPrune op with
+  | false => exact Int.le_trans h0 (hstep_irrev_mono e s op hp)
+  | true =>
+    cases op with
+    | submit lh i => cases hp
+    | play lh bi => cases hp
+    | playMiner lh bi => cases hp
+    | walk lh dest prune skip =>
+      show 0 ≤ (walk (e.withSkip skip) s lh dest prune).1.irrev
+      rw [(walk_withSkip_pointer_irrev e skip s lh dest prune).2]
+      have hu : 0 ≤ (walk.undoAll e prune (undoTodo e s.pointer dest).1 (rolledBack e s)).1.irrev :=
+        undoAll_irrev_nonneg e prune _ _ (by rw [rolledBack_irrev]; exact h0)
+      unfold walkCore
+      simp only
+      split
+      · exact hu
+      · exact Int.le_trans hu (todoAll_irrev_le e lh _ _)
+
+/-- **the irreversible height is never negative, in any history at all** (pruning walks included; start ≥ 0) -/
+theorem irrev_history_nonneg_all (e : Env) (ops : List HOp) : ∀ s : St, 0 ≤ s.irrev → 0 ≤ (hrun e s ops).irrev := by
+  induction ops with
+  | nil => intro s h; exact h
+  | cons op rest ih => intro s h; rw [hrun_cons]; exact ih _ (hstep_irrev_nonneg e s op h)
+
 -- ================================================================== 2. monotone
 
 /-- a history whose operations after `pre` contain no pruning walk never lowers the height reached after `pre` -/
@@ -590,5 +631,9 @@ example :
     stale.2 = true ∧ stale.1.pointer = 4 ∧ stale.1.irrev = 3 ∧
     23 ∈ irrevBlocks fkEnv (hstep fkEnv fkRaceStart (.walk 0 25)) ∧ 23 ∉ chainOf fkEnv stale.1.pointer ∧
     ∀ ops ∈ raceOrders (.walk 0 25) (.walk 0 4) [], (hrun fkEnv fkRaceStart ops).pointer ≠ stale.1.pointer := by decide
+
+-- `irrev_history_nonneg_all` on the fork history followed by a pruning walk (which does lower the height: 3 → 2)
+example : 0 ≤ (hrun fkEnv {} (fkOps ++ [.walk 0 4 true])).irrev :=
+  irrev_history_nonneg_all fkEnv _ {} (by decide)
 
 end XV.C17
